@@ -197,6 +197,10 @@ def cases(spec, ctx):
     for r in range(sc["NR"] // n + 1):
         length = 40 if r < nall else rng.choice([60, 400, 3000])
         nb = rng.randint(1, 5)
+        if r >= nall and r % 25 == 7:
+            # scale: 17..70 blocks, chromosomes of up to 200 kb
+            length = rng.choice([3000, 3000, 200000])
+            nb = rng.randint(17, 70)
         lo = rng.randint(0, length - 2 * nb - 1)
         hi = rng.randint(lo + 2 * nb, min(length, lo + max(2 * nb, rng.choice([12, 40, 300, 3000]))))
         cuts = sorted(rng.sample(range(lo, hi + 1), 2 * nb))
